@@ -484,15 +484,19 @@ pub(crate) fn join(val: &[Value], kwargs: Kwargs, _: &State) -> TeraResult<Strin
 fn ensure_comparable<'a>(keys: impl Iterator<Item = &'a Value>) -> TeraResult<()> {
     let mut prev: Option<&Value> = None;
     for key in keys {
-        if let Some(prev) = prev {
-            let skippable = prev.is_none() || key.is_none();
-            if !skippable && prev.partial_cmp(key).is_none() {
-                return Err(Error::message(format!(
-                    "Cannot sort: `{}` and `{}` are not comparable",
-                    prev.name(),
-                    key.name()
-                )));
-            }
+        // None is allowed anywhere: compare with the last key that wasn't none so that a none
+        // sitting between two other kinds doesn't hide them from each other
+        if key.is_none() {
+            continue;
+        }
+        if let Some(prev) = prev
+            && prev.partial_cmp(key).is_none()
+        {
+            return Err(Error::message(format!(
+                "Cannot sort: `{}` and `{}` are not comparable",
+                prev.name(),
+                key.name()
+            )));
         }
         prev = Some(key);
     }
